@@ -71,16 +71,6 @@ func (l *Lines) Reload(blockIdx int) {
 	copy(lines, newBlock)
 }
 
-func (l *Lines) reloadRange(from int, to int) {
-	if from > to {
-		from, to = to, from
-	}
-
-	for i := from; i <= to; i++ {
-		l.Reload(i)
-	}
-}
-
 func (l *Lines) Move(fromLine int, toLine int) error {
 	from, to := l.Index(fromLine), l.Index(toLine)
 
@@ -105,7 +95,11 @@ func (l *Lines) Move(fromLine int, toLine int) error {
 			return fmt.Errorf("block move failed: %w", err)
 		}
 
-		l.reloadRange(fromBlock, toBlock)
+		// Blocks can differ in number of instructions, so positions of
+		// all blocks in between the two moved can change. For this
+		// reason lines and block starts have to be rebuilt.
+		fresh := newLines(l.code)
+		l.lines, l.blockStarts = fresh.lines, fresh.blockStarts
 	} else {
 		if fromBlock != toBlock {
 			return fmt.Errorf("instructions cannot be moved among blocks")
